@@ -144,11 +144,6 @@ def run(chk):
                     chk.violation("round trip failed under `%s`: %s" % (c.split(" ")[8], r[:120]), {"case": c, "impl": r[:300], "variant": "plain"})
                 digs.append(None)
                 continue
-            cls = classes.classify(c, r)
-            if cls == "sniff_bypass_size" and cls in chk.known_classes:
-                chk.known(cls, chk.known_classes[cls]["text"])
-                digs.append(None)
-                continue
             digs.append(d.get("dig"))
         ref = [x for x in digs if x is not None]
         if ref and any(x != ref[0] for x in ref):
